@@ -28,6 +28,7 @@ type Case struct {
 	Tamper      string   `json:"tamper,omitempty"` // pubkey-replace | pubkey-empty | sig-replace | sig-empty
 	TamperAt    int      `json:"tamper_at,omitempty"`
 	Name        string   `json:"name"`
+	EmptyPass   bool     `json:"empty_passphrase,omitempty"` // the request carries no passphrase: instances use their generation passphrase
 }
 
 var idClasses = map[string][]uint64{
@@ -66,6 +67,7 @@ func genCase(t *rapid.T) (*Case, string) {
 		c.N = uint32(rapid.IntRange(2, 7).Draw(t, "n"))
 		c.T = uint32(rapid.IntRange(0, 8).Draw(t, "t"))
 	}
+	c.EmptyPass = rapid.IntRange(0, 3).Draw(t, "empty_pass") == 0
 	if rapid.Bool().Draw(t, "steer_commits") {
 		c.CommitOrder = rapid.Permutation([]int{0, 1, 2, 3, 4, 5, 6}).Draw(t, "commit_order")
 	}
@@ -127,7 +129,11 @@ func run(c *Case) (*outcome, *vkit.Violation, error) {
 	}
 	init := cl.Nodes[c.Initiator]
 	account := vkit.DWallet + "/" + c.Name
-	resp, err := init.Generate(client, account, c.N, c.T)
+	pass := []byte(vkit.DefaultPassphrase)
+	if c.EmptyPass {
+		pass = nil
+	}
+	resp, err := init.GenerateWithPassphrase(client, account, c.N, c.T, pass)
 	if len(cl.Net.Panics) > 0 {
 		return o, vkit.Violf("instance-panicked", "generation (n=%d,t=%d) crashed an instance: %v", c.N, c.T, cl.Net.Panics), nil
 	}
@@ -219,8 +225,12 @@ func run(c *Case) (*outcome, *vkit.Violation, error) {
 			return o, vkit.Violf("participants-mismatch", "%s: participant %d holds a list of %d participants", where, p.GetId(), len(da.Participants)), nil
 		}
 		for _, q := range resp.GetParticipants() {
-			if _, ok := da.Participants[q.GetId()]; !ok {
+			addr, ok := da.Participants[q.GetId()]
+			if !ok {
 				return o, vkit.Violf("participants-mismatch", "%s: participant %d's list lacks %d", where, p.GetId(), q.GetId()), nil
+			}
+			if want := cl.ByID[q.GetId()].Endpoint.ConnectAddress(); addr != want || q.GetName() != cl.ByID[q.GetId()].Name {
+				return o, vkit.Violf("participants-mismatch", "%s: participant %d records %d at %q (reply names it %q), it is configured as %q", where, p.GetId(), q.GetId(), addr, q.GetName(), want), nil
 			}
 		}
 		want, err := vkit.EvalVVec(da.VVec, p.GetId())
@@ -340,6 +350,9 @@ func TestC12(t *testing.T) {
 			vkit.S.ClassN("signature-subsets-checked", o.subsets)
 			if !o.initIn {
 				vkit.S.Class("initiator-not-a-participant")
+			}
+			if c.EmptyPass {
+				vkit.S.Class("success-without-request-passphrase")
 			}
 			if len(c.CommitOrder) > 0 {
 				vkit.S.Class("success-with-steered-commit-order")
